@@ -1,4 +1,5 @@
 import VelaVerif.Model.RangeSet
+import VelaVerif.Spec.RangeOverlap
 /-!
 # Lemmas for `Model/RangeSet.lean`: the sweep in `intersects` is correct on what `RangeSet` maintains
 
@@ -12,8 +13,10 @@ open VelaVerif.RangeSet
 /-- what the class maintains: ascending starts, no empty range -/
 def WF (l : List Range) : Prop := l.Pairwise (fun r s => r.1 ≤ s.1) ∧ ∀ r ∈ l, r.1 < r.2
 
-/-- the quadratic specification of "some range of `a` overlaps some range of `b`" -/
+/-- the quadratic specification of "some range of `a` overlaps some range of `b`" (`Spec/RangeOverlap.lean`) -/
 def overlapsAny (a b : List Range) : Bool := a.any fun r => b.any fun s => overlapB r s
+
+theorem overlapsAny_eq_spec (a b : List Range) : overlapsAny a b = RangeOverlap.overlapsAny a b := rfl
 
 theorem overlapsAny_iff (a b : List Range) :
     overlapsAny a b = true ↔ ∃ r ∈ a, ∃ s ∈ b, max r.1 s.1 < min r.2 s.2 := by
